@@ -550,7 +550,7 @@ def group_blocks(rng, graph, kmax):
     return list(blocks.values())
 
 
-def layered_case(rng, nmax=9, n_intermediate=None, coarse_last=False):
+def layered_case(rng, nmax=9, n_intermediate=None, coarse_last=False, squash=False):
     """One C06 input.  Levels: atoms < parts F (level 0 blocks) < groups (level 1) < ... ; returns the
     layered string (base + intermediate coarse fragment levels + last level) and the flat two-level string."""
     m = rand_molecule(rng, nmax=nmax)
@@ -590,7 +590,8 @@ def layered_case(rng, nmax=9, n_intermediate=None, coarse_last=False):
         last_defs.append('#%s=%s' % (part_names[i], t))
     # intermediate levels: graphs[j] over blocks of level j; names[j]
     graphs = [g0]
-    names = [part_names]
+    names = [dict(part_names)]
+    used_squash = False
     level_defs = []      # fragment definitions of level j (blocks of level j written over level j-1 nodes), j >= 1
     for j in range(1, n_int + 1):
         gprev = graphs[-1]
@@ -599,6 +600,8 @@ def layered_case(rng, nmax=9, n_intermediate=None, coarse_last=False):
         gj = nx.Graph()
         gj.add_nodes_from(range(len(blocks)))
         cdesc = {}
+        extra_nodes = {}
+        shared = set()     # a node is shared by at most two blocks (three-way sharing is C10 territory)
         for a, b, d in gprev.edges(data=True):
             if bowner[a] != bowner[b]:
                 i, k = bowner[a], bowner[b]
@@ -607,6 +610,17 @@ def layered_case(rng, nmax=9, n_intermediate=None, coarse_last=False):
                 else:
                     gj.add_edge(i, k, order=1)
                 lab = next(label_iter)
+                if squash and a not in shared and rng.random() < 0.35:
+                    shared.add(a)
+                    # share node a between the two blocks: block of b gets a copy of a carrying the
+                    # edge a-b, both copies marked with the squash operator
+                    extra_id = 100000 + sum(len(v) for v in extra_nodes.values()) + 1000 * j
+                    extra_nodes.setdefault(bowner[b], []).append((extra_id, a, b, d['order']))
+                    names[-1][extra_id] = names[-1][a]
+                    cdesc.setdefault(a, []).append(('!' + lab, 1))
+                    cdesc.setdefault(extra_id, []).append(('!' + lab, 1))
+                    used_squash = True
+                    continue
                 if rng.random() < 0.5:
                     da, db = '$' + lab, '$' + lab
                 else:
@@ -619,6 +633,10 @@ def layered_case(rng, nmax=9, n_intermediate=None, coarse_last=False):
         defs = []
         for bi, blk in enumerate(blocks):
             sub_edges = {(a, b): d['order'] for a, b, d in gprev.edges(data=True) if bowner[a] == bi and bowner[b] == bi}
+            blk = list(blk)
+            for extra_id, a, b, o in extra_nodes.get(bi, []):
+                blk.append(extra_id)
+                sub_edges[(extra_id, b)] = o
             t, _ = render_coarse_fragment(rng, names[-1], blk, sub_edges, cdesc)
             if t is None:
                 return None
@@ -643,8 +661,8 @@ def layered_case(rng, nmax=9, n_intermediate=None, coarse_last=False):
         expect = {'nodes': [[i, part_names[i]] for i in range(len(parts))],
                   'edges': [[a, b, d['order']] for a, b, d in g0.edges(data=True)]}
         return {'layered': layered, 'flat': flat, 'coarse_last': True, 'levels': n_int, 'expect_cg': expect,
-                'nparts': len(parts)}
+                'nparts': len(parts), 'squash': used_squash}
     layered = base + '.' + '.'.join(layers + [block(last_defs)])
     flat = flat_base + '.' + block(last_defs)
     return {'layered': layered, 'flat': flat, 'coarse_last': False, 'levels': n_int + 1, 'mol': mol_dump(m),
-            'nparts': len(parts)}
+            'nparts': len(parts), 'squash': used_squash}
